@@ -31,6 +31,10 @@ for _k, _off in enumerate(_offs):
     progs.append((f"extra-proto-before-opcode-{_k}", _base[:_off] + b"\x80\x02" + _base[_off:]))
     if _k % 7 == 3:
         progs.append((f"extra-proto-other-version-before-opcode-{_k}", _base[:_off] + b"\x80\x03" + _base[_off:]))
+# findings from different rules at the same severity (their triggers have different types: int / str / tuple)
+progs.append(("dup-proto+nonstd-import", b"\x80\x02\x80\x02cmypkg.models\nNet\n."))
+progs.append(("dup-proto+nonstd-call", b"\x80\x02\x80\x02cmypkg.models\nNet\n)R."))
+progs.append(("misplaced-proto+nonstd-import+unused", b"cmypkg\nf\n)R0\x80\x03cmypkg.models\nNet\n."))
 progs += corpus()
 fails, n, undecomp = [], 0, 0
 for name, data in progs:
